@@ -221,7 +221,7 @@ def gen(ctx, emit):
             heavy = any(isinstance(t, list) and any(x in ("tx", "block", "header") for x in t) for _, t in layout)
             for c in ([0, 1, 2, 40] if heavy else [0, 1, 2, 252, 253, 300]):
                 rt(name, gen_fields(rng, name, count=c))
-        for _ in range(ctx.n(12, 600)):
+        for _ in range(ctx.n(150, 5000)):
             if name == "alert" and rng.random() < 0.5:
                 rt(name, [("payload", alert_body(rng)), ("signature", rng.randbytes(rng.choice([0, 64, 72])))])
             else:
@@ -257,7 +257,7 @@ def gen(ctx, emit):
     for name in NAMES:
         if not REF[name]:
             continue
-        for _ in range(ctx.n(6, 300)):
+        for _ in range(ctx.n(80, 2500)):
             f = honest_merkleblock(rng) if name == "merkleblock" and rng.random() < 0.7 else gen_fields(rng, name, small=True)
             try:
                 data = ref_pack(REF[name], f)
